@@ -1,12 +1,19 @@
 // vrace is the free-running race pass of C19: the same operation bodies as the schedule explorer, on real
 // goroutines, built with -race. Any report of the race detector makes the process exit with status 66.
+//
+// Cold pass: 24 fresh processes in which all operations (two goroutines each, distinct private values) start together
+// behind a barrier with nothing called before, in rotated orders — so that lazily built tables and caches are
+// populated concurrently; the expected results are computed afterwards. Warm pass: all pairs repeatedly and a
+// 64-goroutine mix in one process, expected results computed after the first concurrent round.
 package main
 
 import (
+	"bytes"
 	"encoding/json"
 	"flag"
 	"fmt"
 	"os"
+	"os/exec"
 	"runtime"
 	"sync"
 
@@ -15,9 +22,16 @@ import (
 
 func main() {
 	tier := flag.String("tier", "quick", "")
+	cold := flag.String("cold", "", "child mode: i,j — run the two operations concurrently first thing in this process")
 	flag.Parse()
 	c19ops.Quiet()
 	runtime.GOMAXPROCS(16)
+	if *cold != "" {
+		var i, j int
+		fmt.Sscanf(*cold, "%d,%d", &i, &j)
+		os.Exit(coldPair(i, j))
+	}
+	coldCalls, coldBad := coldPass()
 	reps, rounds := 20, 8
 	if *tier == "thorough" {
 		reps, rounds = 50, 20
@@ -25,6 +39,23 @@ func main() {
 	names := []string{}
 	for _, o := range c19ops.Ops {
 		names = append(names, o.Name)
+	}
+	// a first concurrent round on this process's untouched state (results not compared: nothing to compare with yet)
+	{
+		var wg sync.WaitGroup
+		start := make(chan struct{})
+		for g := 0; g < 32; g++ {
+			wg.Add(1)
+			go func(g int) {
+				defer wg.Done()
+				<-start
+				for k := range c19ops.Ops {
+					c19ops.Ops[(g+k)%len(c19ops.Ops)].Run(g + 1)
+				}
+			}(g)
+		}
+		close(start)
+		wg.Wait()
 	}
 	// expected results, sequentially
 	exp := map[string]string{}
@@ -95,9 +126,110 @@ func main() {
 		wg.Wait()
 		calls += 64 * len(c19ops.Ops)
 	}
-	b, _ := json.Marshal(map[string]any{"calls": calls, "mismatches": mismatches, "goroutines": 64, "pair_repetitions": reps, "mix_rounds": rounds})
+	b, _ := json.Marshal(map[string]any{"calls": calls + coldCalls, "mismatches": mismatches + coldBad.mismatches, "goroutines": 64, "pair_repetitions": reps, "mix_rounds": rounds, "cold_processes": coldBad.processes})
 	fmt.Println(string(b))
-	if mismatches > 0 {
+	if coldBad.race {
+		os.Exit(66)
+	}
+	if coldBad.crash {
+		os.Exit(4)
+	}
+	if mismatches+coldBad.mismatches > 0 {
 		os.Exit(3)
 	}
+}
+
+// coldPair: child process. Two goroutines per operation (different private values) start together on the untouched
+// process state, rotated by i so that different children start different operations first; afterwards the same calls
+// are made sequentially and must give the same results.
+func coldPair(i, j int) int {
+	n := len(c19ops.Ops)
+	var ops []c19ops.Op
+	for k := 0; k < n; k++ {
+		o := c19ops.Ops[(k*(j+1)+i)%n]
+		ops = append(ops, o, o)
+	}
+	got := make([]string, len(ops))
+	var wg sync.WaitGroup
+	start := make(chan struct{})
+	for k, o := range ops {
+		wg.Add(1)
+		go func(k int, o c19ops.Op) {
+			defer wg.Done()
+			<-start
+			got[k] = o.Run(17*k + 3 + i)
+		}(k, o)
+	}
+	close(start)
+	wg.Wait()
+	bad := 0
+	for k, o := range ops {
+		if want := o.Run(17*k + 3 + i); want != got[k] {
+			bad++
+			fmt.Fprintf(os.Stderr, "MISMATCH cold start: %s gave %.80q concurrently, %.80q sequentially\n", o.Name, got[k], want)
+		}
+	}
+	if bad > 0 {
+		return 3
+	}
+	return 0
+}
+
+type coldResult struct {
+	processes, mismatches int
+	race, crash           bool
+}
+
+func coldPass() (calls int, res coldResult) {
+	exe, err := os.Executable()
+	if err != nil {
+		return 0, res
+	}
+	n := len(c19ops.Ops)
+	type job struct{ i, j int }
+	var jobs []job
+	// rotations of the start order; strides coprime to most alphabet sizes
+	for i := 0; i < 12; i++ {
+		for _, j := range []int{0, 6} {
+			jobs = append(jobs, job{i * 3, j})
+		}
+	}
+	var mu sync.Mutex
+	var wg sync.WaitGroup
+	sem := make(chan struct{}, 16)
+	for _, jb := range jobs {
+		wg.Add(1)
+		go func(jb job) {
+			defer wg.Done()
+			sem <- struct{}{}
+			defer func() { <-sem }()
+			cmd := exec.Command(exe, "--cold", fmt.Sprintf("%d,%d", jb.i, jb.j))
+			cmd.Env = append(os.Environ(), "GOMAXPROCS=4")
+			var se bytes.Buffer
+			cmd.Stderr = &se
+			err := cmd.Run()
+			mu.Lock()
+			defer mu.Unlock()
+			res.processes++
+			if err == nil {
+				return
+			}
+			os.Stderr.Write(se.Bytes())
+			code := -1
+			if ee, ok := err.(*exec.ExitError); ok {
+				code = ee.ExitCode()
+			}
+			switch code {
+			case 66:
+				res.race = true
+			case 3:
+				res.mismatches++
+			default:
+				res.crash = true
+				fmt.Fprintf(os.Stderr, "cold pass (rotation %d, stride %d): child exited with %v\n", jb.i, jb.j+1, err)
+			}
+		}(jb)
+	}
+	wg.Wait()
+	return 2 * n * len(jobs), res
 }
